@@ -71,6 +71,8 @@ def run_dist(ctx, cfg, ranks, tag):
             pass
     return res
 
+THEOREMS_D = ['RootSim.PrefixUnique.prefix_unique', 'RootSim.PrefixUnique.history_unique']
+
 
 def run(ctx):
     ctx.trusted += ["MPI library (OpenMPI, ranks on one host), real message timing between ranks is not controlled: within a rank the token "
@@ -80,6 +82,7 @@ def run(ctx):
                     "they are covered only through the committed outcome (partial)"]
     ctx.assumptions += ["valid-model contract V1-V5", "runs that hang at shutdown (known finding F1, multi-rank variant) are compared up to the hang"]
     runlib.lean_part(ctx, "RootSim.Props.C01Sorted", THEOREMS)
+    runlib.lean_part(ctx, "RootSim.Props.PrefixUnique", THEOREMS_D)
     srcs = [os.path.join(vlib.HARNESS, "hrun.c")] + ctx.core_sources(mpi=True)
     if not ctx.cc("hrun_mpi", srcs, mpi=True):
         return
